@@ -14,7 +14,7 @@
   xml():        __replaceGenerator(); topnode.toXml(0)                       `step`/`out` `.xml`, `flatTree`
   contentxml(): DocumentContent open tag; scripts / fontfacedecls if they    `contentTree`
                 have children; automatic-styles = _used_auto_styles([styles,
-                automaticstyles, body]); body                                  (pure)
+                body]); body                                  (pure)
   stylesxml():  DocumentStyles; fontfacedecls if children; styles;           `stylesTree`   (pure)
                 automatic-styles = _used_auto_styles([masterstyles]);
                 masterstyles if children
